@@ -25,6 +25,14 @@ TRUSTED = ["real stack size, allocator behaviour and pointer provenance are outs
 ASSUMPTIONS = ["documented panics (Date::from_ymd, add_days overflow, DateHour::from_ymdh) are API contracts, not findings"]
 
 CRASH = ("PANIC", "ABORT", "HANG")
+# >>> w_buf (wave 5)
+RULE += ("; wave 5 (props/bufstore.py, coq/theories/BufStore.v): buffer.rs at STORAGE level -- op lists (fill_buf over a scripted, possibly "
+         "scribbling Read; advance; advance_to; get; window/position/consumed_data after every op) on the real BufferWindow for every "
+         "capacity 0..40 over dirty buffers (bytes of the data alphabet), zeroed buffers, the bufferless slice window and buffers recycled from a "
+         "previous window; schedules with short reads, reads at the end of the data (Ok(0)), full buffers, faults; extracted storage model = "
+         "implementation in release AND debug builds (every debug_assert! of buffer.rs armed: oracle crash-bufstore), a stream-level python oracle that keeps no buffer contents (window = slice of the delivered data at position)")
+TRUSTED = TRUSTED + ["props/bufstore.Sim: offsets-only reference of BufferWindow (oracle bufstore-window / bufstore-position / bufstore-full)"]
+# <<< w_buf
 
 # (kind template, needs) -- families register their byte-string entry points here
 TEXT_KINDS = ["tt.parse\t{h}", "tr.slice\t{h}", "tr.stream\t{cap}\t{sched}\t{h}", "tr.skip\t{cap}\t{sched}\t{h}\t{n}", "tr.skipuv\t{cap}\t{sched}\t{h}\t{n}",
@@ -115,6 +123,12 @@ def run(ctx):
     # >>> a_c05 (wave 4): inventory streams, see props/C05_inv.py and audit/C05.md
     C05_inv.run_inv(ctx)
     # <<<
+    # >>> w_buf (wave 5): index-level safety of buffer.rs -- contract-respecting op lists on the real BufferWindow in both
+    # build profiles (debug: every debug_assert! in front of the unsafe blocks is armed); see props/bufstore.py
+    from props import bufstore
+    bufstore.run(ctx, "C05", 2500, 30000, profiles=PROFILES, crash_oracle=True)
+    bufstore.run_contract(ctx, 600, 8000)
+    # <<< w_buf
 
 
 def search(ctx):
